@@ -31,64 +31,72 @@ import "github.com/dcaiafa/lox/internal/base/set"
 // First(D), and '+' by First('+'). Finally ε is in the final result only
 // because First(D) includes it.
 func First(g *Grammar, syms []Term) set.Set[*Terminal] {
-	visited := new(set.Set[Term])
-	if len(syms) == 1 {
-		return first(g, visited, syms[0])
-	}
+	ruleFirst := firstSets(g)
 	var firstSet set.Set[*Terminal]
 	for _, sym := range syms {
-		partialFirst := first(g, visited, sym)
-		firstSet.AddSet(partialFirst)
-
+		partialFirst := first(ruleFirst, sym)
+		hasEpsilon := false
+		partialFirst.ForEach(func(t *Terminal) {
+			if t == Epsilon {
+				hasEpsilon = true
+				return
+			}
+			firstSet.Add(t)
+		})
 		// If sym[i] includes ε, include FIRST(sym[i+1]) in FIRST(syms).
 		// Otherwise, stop now.
-		if !partialFirst.Has(Epsilon) {
-			firstSet.Remove(Epsilon)
-			break
+		if !hasEpsilon {
+			return firstSet
 		}
 	}
+	firstSet.Add(Epsilon)
 	return firstSet
 }
 
-func first(g *Grammar, visited *set.Set[Term], s Term) set.Set[*Terminal] {
+func first(ruleFirst map[*Rule]*set.Set[*Terminal], s Term) set.Set[*Terminal] {
 	if terminal, ok := s.(*Terminal); ok {
 		return set.New[*Terminal](terminal)
 	}
-
-	// Productions can contain recursion.
-	// E.g.: xs = xs x | x
-	if visited.Has(s) {
-		return set.Set[*Terminal]{}
+	if f := ruleFirst[s.(*Rule)]; f != nil {
+		return *f
 	}
-	visited.Add(s)
+	return set.Set[*Terminal]{}
+}
 
-	rule := s.(*Rule)
-	firstSet := set.Set[*Terminal]{}
-	for _, prod := range rule.Prods {
-		if len(prod.Terms) == 0 {
-			firstSet.Add(Epsilon)
-			continue
-		}
-
-		addEpsilon := true
-		for _, term := range prod.Terms {
-			termFirst := first(g, visited, term)
-			hasEpsilon := false
-			termFirst.ForEach(func(s *Terminal) {
-				if s == Epsilon {
-					hasEpsilon = true
-					return
+// firstSets computes FIRST for every rule as the least fixed point of the
+// usual equations, so that recursive and repeated nullable rules are handled.
+func firstSets(g *Grammar) map[*Rule]*set.Set[*Terminal] {
+	ruleFirst := make(map[*Rule]*set.Set[*Terminal], len(g.Rules))
+	for _, rule := range g.Rules {
+		ruleFirst[rule] = new(set.Set[*Terminal])
+	}
+	for changed := true; changed; {
+		changed = false
+		for _, prod := range g.Prods {
+			firstSet := ruleFirst[prod.Rule]
+			if firstSet == nil {
+				continue
+			}
+			addEpsilon := true
+			for _, term := range prod.Terms {
+				hasEpsilon := false
+				termFirst := first(ruleFirst, term)
+				termFirst.ForEach(func(t *Terminal) {
+					if t == Epsilon {
+						hasEpsilon = true
+						return
+					}
+					changed = firstSet.Add(t) || changed
+				})
+				if !hasEpsilon {
+					addEpsilon = false
+					break
 				}
-				firstSet.Add(s)
-			})
-			if !hasEpsilon {
-				addEpsilon = false
-				break
+			}
+			if addEpsilon {
+				changed = firstSet.Add(Epsilon) || changed
 			}
 		}
-		if addEpsilon {
-			firstSet.Add(Epsilon)
-		}
 	}
-	return firstSet
+	return ruleFirst
 }
